@@ -164,6 +164,8 @@ class Check:
         """thorough tier: re-check the compiled Props library and everything it depends on with the independent checker"""
         lib = "QG." + rel[:-2].replace("/", ".")
         rc, out = sh(["coqchk", "-silent", "-o", "-Q", COQ, "QG", lib], timeout=1500, cwd=COQ)
+        if rc == 124:
+            rc, out = sh(["coqchk", "-silent", "-o", "-Q", COQ, "QG", lib], timeout=6000, cwd=COQ)
         axioms = []
         grab = False
         for line in out.split("\n"):
